@@ -153,6 +153,43 @@ class Evals:
         return total
 
 
+def _main_loop_with_pure_fors(fn, ev, what):
+    """the ONE `while` loop of fn.  Besides it only `for <k> in range(<expr>)` loops nested inside it are accepted, and only
+    if they are inert for the bound: no support evaluation (direct or through a callee), no call at all except `range`,
+    no nested loop, no break / continue / return, and no assignment to anything but subscript-free local names other
+    than the loop counter `i`, `max_interations` and `use_nesterov_acceleration` (a finite pure scan, e.g. the comparison
+    of the new support point with the rows of the simplex)."""
+    loops = _loops(fn)
+    whiles = [lp for lp in loops if isinstance(lp, ast.While)]
+    main = _one(whiles, what)
+    inside = {id(n) for n in ast.walk(main)}
+    for lp in loops:
+        if lp is main:
+            continue
+        if id(lp) not in inside:
+            raise CapsError(f"{what}: a loop outside the main loop")
+        if not (isinstance(lp, ast.For) and isinstance(lp.target, ast.Name) and lp.target.id not in ("i", "max_interations", "use_nesterov_acceleration")
+                and isinstance(lp.iter, ast.Call) and isinstance(lp.iter.func, ast.Name) and lp.iter.func.id == "range" and not lp.orelse):
+            raise CapsError(f"{what}: inner loop is not `for <k> in range(...)`")
+        for n in ast.walk(lp):
+            if n is lp:
+                continue
+            if isinstance(n, (ast.While, ast.For, ast.Break, ast.Continue, ast.Return, ast.Yield, ast.YieldFrom, ast.Raise)):
+                raise CapsError(f"{what}: inner `for` loop contains {type(n).__name__}")
+            if isinstance(n, ast.Call) and n is not lp.iter:
+                raise CapsError(f"{what}: inner `for` loop makes a call")
+            if isinstance(n, (ast.Assign, ast.AugAssign, ast.AnnAssign)):
+                tg = n.targets if isinstance(n, ast.Assign) else [n.target]
+                for t in tg:
+                    if not isinstance(t, ast.Name) or t.id in ("i", "max_interations", "use_nesterov_acceleration", "simplex_len"):
+                        raise CapsError(f"{what}: inner `for` loop assigns to something other than a scratch name")
+        if any(isinstance(n, ast.Call) for a in lp.iter.args for n in ast.walk(a)):
+            raise CapsError(f"{what}: inner `for` loop has a call in its range")
+        if ev.count(lp.body):
+            raise CapsError(f"{what}: inner `for` loop makes support evaluations")
+    return main
+
+
 def _pin_counter(loop, var, where, path, fname, before_test_of=None):
     """exactly one `var += 1` in the loop, a direct statement of the loop body at the pinned place; no other
     assignment to `var` inside the loop"""
@@ -271,7 +308,7 @@ def read(repo):
         entry = _fn(t, "gjk_nesterov_accelerated" if key == "nesterov" else "gjk_nesterov_accelerated_primitives", p)
         d[key + "_max_interations"] = _default(entry, "max_interations", p)
         f = _fn(t, func, p)
-        loop = _one(_loops(f), f"loop in {p}:{func}")
+        loop = _main_loop_with_pure_fors(f, ev, f"loop in {p}:{func}")
         if not (isinstance(loop, ast.While) and isinstance(loop.test, ast.Compare) and len(loop.test.ops) == 1
                 and isinstance(loop.test.ops[0], ast.Lt) and isinstance(loop.test.left, ast.Name) and loop.test.left.id == "i"
                 and isinstance(loop.test.comparators[0], ast.Name) and loop.test.comparators[0].id == "max_interations"):
